@@ -101,6 +101,7 @@ func (ctx *Context) Parse(value string) error {
 	if verifOn {
 		verifYield(verifSiteLangSet)
 	}
+	ctx.parseFailed = true
 	_, err := p.parse(nil)
 	if err != nil {
 		ctx.Error = err
@@ -115,6 +116,7 @@ func (ctx *Context) Parse(value string) error {
 
 	ctx.code = p.cur.data.code
 	ctx.codeIndex = p.cur.data.codeIndex
+	ctx.parseFailed = false
 
 	return nil
 }
@@ -135,6 +137,12 @@ func (ctx *Context) IsCalculateExists() bool {
 }
 
 func (ctx *Context) RunAfterParsed() error {
+	if ctx.parseFailed {
+		// 最近一次 Parse 失败了: 留在 ctx.code 里的是更早那次解析的代码，而 parser 已经换成了新文本，
+		// 拿旧代码对着新文本执行会得到错位的 Matched/RestInput 和计算过程(GetDetailText 甚至越界 panic)
+		ctx.Error = errors.New("上一次解析没有成功，没有可以执行的代码")
+		return ctx.Error
+	}
 	ctx.IsComputedLoaded = false
 	// 同一份已解析的代码可以多次执行，每次执行都从干净的状态开始，
 	// 不能带着上一次执行留下的错误、算力计数和计算过程缓存
